@@ -1,9 +1,9 @@
 (* C07/Properties.v — property theorems only.  Model: C07/Model.v (the code after fix commits
    e89b171, 07b228c; with the known finding F-C07a, whose fix 311264d was reverted by 0819a3f). *)
 From Coq Require Import String Lia.
-From RM Require Import C06.Model C06.Proofs C06.Proofs5 C06.Driver C07.Model C07.Proofs C07.Proofs2 C07.Proofs3 C07.Proofs4 C07.Text C07.Proofs5 C07.Walker C07.Proofs6 C07.Proofs7 C07.Proofs11 C07.Proofs13 C07.Proofs8 C07.Proofs9 C07.Proofs10 C07.Proofs12 Gen.C07WinEval C07.Source C07.Proofs14 C07.Proofs15 C07.Proofs16 Gen.C07WinLine C07.Proofs17 C07.Proofs18 C07.WalkerFd C07.Proofs19 C07.Proofs20 C07.Driver C07.Proofs21.
+From RM Require Import C06.Model C06.Proofs C06.Proofs5 C06.Driver C07.Model C07.Proofs C07.Proofs2 C07.Proofs3 C07.Proofs4 C07.Text C07.Proofs5 C07.Walker C07.Proofs6 C07.Proofs7 C07.Proofs11 C07.Proofs13 C07.Proofs8 C07.Proofs9 C07.Proofs10 C07.Proofs12 Gen.C07WinEval C07.Source C07.Proofs14 C07.Proofs15 C07.Proofs16 Gen.C07WinLine C07.Proofs17 C07.Proofs18 C07.WalkerFd C07.Proofs19 C07.Proofs20 C07.Driver C07.Proofs21 C07.Proofs22 C07.Proofs23.
 From RM Require C09.Grammar.
-From RM Require C08.Model C08.Proofs.
+From RM Require C08.Model C08.Proofs C08.WinModel C08.WinProofs.
 Open Scope Z_scope.
 
 (* No Panic and no OutOfFuel in STACK WIN evaluation: every size field, every program text
@@ -829,3 +829,145 @@ Theorem c07_driver_source_agrees :
      run_walk7_src ctx stackbase stack funcs recs = run_walk7 ctx stackbase stack funcs recs).
 Proof. exact driver_source_agrees. Qed.
 Print Assumptions c07_driver_source_agrees.
+
+(* The exact extent of the known finding F-C07a, for EVERY callee validity set (second pass of round 5).
+   W = wrongly_forwarded valid sets = the registers of CALLEE_SAVED_REGS = [ebp; ebx; edi; esi] that are valid in the
+   callee and that the record does not set.  After a successful frame-data walk through the real x86 CfiStackWalker the
+   caller's validity set is (the outputs the program defined) + W — disjointly, nothing else —, every register of W
+   carries the callee's value unchanged, and W is empty exactly when the case is outside the known class
+   (Known_C07a = false, the hypothesis of c07_only_six_and_no_forwarding).  So the finding never makes a register
+   outside those four valid, never changes a value the record sets, and is exactly as large as the callee's validity
+   set allows: W = ([ebp; ebx; edi; esi] ∩ valid) \ defined. *)
+Theorem c07_forwarded_set_exact :
+  forall p E i e ctx valid s' m,
+    walk_win_framedata (real_ops x86) p E i e (real_init x86 ctx valid) = Ret (s', true) ->
+    win_final_vars p E i e = Ret (Some m) ->
+    let W := wrongly_forwarded valid (fd_sets m) in
+    (forall n, r_valid s' n = fd_sets m n || mem_b n W) /\
+    (forall n, In n W <-> In n (a_saved x86) /\ callee_has valid n = true /\ is_set n m = false) /\
+    (forall n, In n W -> r_valid s' n = true /\ r_ctx s' n = r_ctx (real_init x86 ctx valid) n) /\
+    NoDup W /\
+    (W = [] <-> Known_C07a ctx valid m = false).
+Proof. exact forwarded_exact_framedata. Qed.
+Print Assumptions c07_forwarded_set_exact.
+
+(* ... and for FPO records, register by register: %ebp is never wrongly forwarded (the record always sets it), %esi and
+   %edi whenever they are valid in the callee, %ebx when it is valid in the callee and not passed through (the record
+   allocates a base pointer, or the walker does not report it). *)
+Theorem c07_forwarded_set_exact_fpo :
+  forall E i abp ctx valid s',
+    walk_win_fpo (real_ops x86) E i abp (real_init x86 ctx valid) = (s', true) ->
+    let W := wrongly_forwarded valid (fpo_sets E abp) in
+    (forall n, r_valid s' n = fpo_sets E abp n || mem_b n W) /\
+    (forall n, In n W <-> In n (a_saved x86) /\ callee_has valid n = true /\ fpo_sets E abp n = false) /\
+    (forall n, In n W -> r_valid s' n = true) /\
+    NoDup W /\
+    (W = [] <-> Known_C07a_fpo E abp ctx valid = false) /\
+    ~ In N_ebp W /\
+    (In N_esi W <-> callee_has valid N_esi = true) /\
+    (In N_edi W <-> callee_has valid N_edi = true) /\
+    (In N_ebx W <-> callee_has valid N_ebx = true /\ (abp = true \/ e_callee E N_ebx = None)).
+Proof. exact forwarded_exact_fpo. Qed.
+Print Assumptions c07_forwarded_set_exact_fpo.
+
+(* W as a closed formula: one conditional per callee-saved register, in CALLEE_SAVED_REGS order *)
+Theorem c07_forwarded_set_formula :
+  forall valid sets,
+    wrongly_forwarded valid sets =
+    (if callee_has valid N_ebp && negb (sets N_ebp) then [N_ebp] else []) ++
+    (if callee_has valid N_ebx && negb (sets N_ebx) then [N_ebx] else []) ++
+    (if callee_has valid N_edi && negb (sets N_edi) then [N_edi] else []) ++
+    (if callee_has valid N_esi && negb (sets N_esi) then [N_esi] else []).
+Proof. exact wrongly_forwarded_formula. Qed.
+Print Assumptions c07_forwarded_set_formula.
+
+(* the witness of F-C07a (`$eip $esp ^ = $esp $esp 4 + =`; $ebp and $ebx are predefined, hence defined outputs):
+   all registers valid in the callee -> W = [edi; esi]; only eip, esp, ebp, esi valid -> W = [esi]; none of the
+   callee-saved ones valid -> W = [] *)
+Example c07_nonvacuous_forwarded_set :
+  match walk_win_framedata (real_ops x86) Debug w_env w_info w_prog (real_init x86 w_ctx None),
+        win_final_vars Debug w_env w_info w_prog with
+  | Ret (s', true), Ret (Some m) =>
+      wrongly_forwarded None (fd_sets m) = [N_edi; N_esi] /\
+      wrongly_forwarded (Some [N_eip; N_esp; N_ebp; N_esi]) (fd_sets m) = [N_esi] /\
+      wrongly_forwarded (Some [N_eip; N_esp]) (fd_sets m) = [] /\
+      r_valid s' N_edi = true /\ r_valid s' N_esi = true /\ r_ctx s' N_esi = 12
+  | _, _ => False
+  end.
+Proof. vm_compute. repeat split; reflexivity. Qed.
+
+(* ---- Second pass of round 5: WHICH record SymbolFile::walk_frame sees when several STACK WIN records of one kind
+   cover an address.  The STACK WIN table theorems of C08 (c08_win_build_total / _sorted_disjoint / _lookup_sound /
+   _isolated_complete, stated there for records (address, size, tag)) are imported for this directory's full
+   StackInfoWin records through a map that preserves the derived equality (C07/Proofs23.v, Proofs8's parametricity of
+   the range-map builder); no hypothesis on overlaps, duplicates or zero-sized records. ---- *)
+
+(* whatever the overlaps: a lookup returns a record OF THE FILE — same address, same every other field, a size never
+   larger than written (the overlap repair only ever shortens) — filed under its own range, which contains the address *)
+Theorem c07_table_lookup_sound :
+  forall l t x i,
+    Forall win_wf l -> win_table l = Ret t -> C08.Model.rm_get t x = Some i ->
+    exists i0, In i0 l /\ i = set_size i0 (w_size i) /\ 0 < w_size i <= w_size i0 /\
+               w_addr i0 <= x <= w_addr i0 + w_size i - 1 /\
+               win_range i = Some (w_addr i0, w_addr i0 + w_size i - 1).
+Proof. exact table_lookup_sound. Qed.
+Print Assumptions c07_table_lookup_sound.
+
+(* the finished table is sorted by address with pairwise disjoint ranges, every entry filed under its record's own
+   range: at most one entry can answer a lookup *)
+Theorem c07_table_sorted_disjoint :
+  forall l t, Forall win_wf l -> win_table l = Ret t ->
+    Sorting.Sorted.StronglySorted (fun a b => snd (fst a) < fst (fst b)) t /\
+    Forall (fun e => win_range (snd e) = Some (fst e)) t.
+Proof. exact table_sorted_disjoint. Qed.
+Print Assumptions c07_table_sorted_disjoint.
+
+(* a record that intersects no other record of its kind is returned exactly as written for every address inside it,
+   whatever overlaps the OTHER records have among themselves (c07_table_refines_spec needed all of them disjoint) *)
+Theorem c07_table_isolated_complete :
+  forall la w lb r t x,
+    Forall win_wf (la ++ w :: lb) -> win_range w = Some r ->
+    (forall w' r', In w' (la ++ lb) -> win_range w' = Some r' -> C08.Model.intersects r r' = false) ->
+    win_table (la ++ w :: lb) = Ret t -> C08.Model.contains r x = true -> C08.Model.rm_get t x = Some w.
+Proof. exact table_isolated_complete. Qed.
+Print Assumptions c07_table_isolated_complete.
+
+(* SymbolFile::walk_frame in terms of the records of the file: exactly one of three things happens — (1) a frame-data
+   record of the file whose WRITTEN range covers the address is evaluated as written (evaluation never reads address or
+   size, so the shortened copy in the table evaluates like the original), whatever the FPO list holds; (2) no frame-data
+   entry answers and an FPO record of the file covering the address is evaluated as written; (3) STACK CFI alone.
+   After (1)/(2) STACK CFI continues from the state the failed attempt left (cfi_fallback). *)
+Theorem c07_walk_frame_by_file_record :
+  forall S (ops : wops S) p E f s,
+    Forall win_wf (sf_framedata f) -> Forall win_wf (sf_fpo f) ->
+    Forall is_framedata (sf_framedata f) -> Forall is_fpo (sf_fpo f) ->
+    (exists i0 e, In i0 (sf_framedata f) /\ covers i0 (e_instr E) /\ w_thing i0 = ProgramString e /\
+       walk_frame ops p E f s =
+       (do wr <- walk_win_framedata ops p E i0 e s;
+        if snd wr then Ret (Some (fst wr)) else cfi_fallback ops p E f (fst wr))) \/
+    (exists i0 b, In i0 (sf_fpo f) /\ covers i0 (e_instr E) /\ w_thing i0 = AllocatesBasePointer b /\
+       walk_frame ops p E f s =
+       (let wr := walk_win_fpo ops E i0 b s in
+        if snd wr then Ret (Some (fst wr)) else cfi_fallback ops p E f (fst wr))) \/
+    walk_frame ops p E f s = cfi_fallback ops p E f s.
+Proof. exact walk_frame_by_file_record. Qed.
+Print Assumptions c07_walk_frame_by_file_record.
+
+(* three frame-data records: A = [100, 149], B = [120, 169] (starts inside A: A is cut to [100, 119]),
+   C = [110, 129] (read after B, starts before it and is not the same range: dropped).  Address 115 gets A (size 20),
+   125 gets B although A and C as written cover it too, 160 gets B; and a frame-data record beats an FPO record
+   covering the same address. *)
+Example c07_nonvacuous_table_overlap :
+  let A := mkWin 100 50 0 0 0 0 4 0 (ProgramString [65]) in
+  let B := mkWin 120 50 0 0 0 0 8 0 (ProgramString [66]) in
+  let C := mkWin 110 20 0 0 0 0 12 0 (ProgramString [67]) in
+  Forall win_wf [A; B; C] /\
+  win_table [A; B; C] = Ret [((100, 119), set_size A 20); ((120, 169), B)] /\
+  (forall t, win_table [A; B; C] = Ret t ->
+     C08.Model.rm_get t 115 = Some (set_size A 20) /\ C08.Model.rm_get t 125 = Some B /\
+     C08.Model.rm_get t 160 = Some B /\ C08.Model.rm_get t 170 = None).
+Proof.
+  cbv zeta. split; [repeat constructor; vm_compute; congruence|].
+  split; [vm_compute; reflexivity|].
+  intros t H. vm_compute in H. inversion H; subst t. vm_compute. repeat split; reflexivity.
+Qed.
